@@ -244,6 +244,166 @@ func runC07(c *Ctx) {
 		}
 	}
 
+	// ------------------------------------------------------------ P10
+	c.Rule("C07.P10", "MUST-PASS", "the global rounding residue is consumed and replaced together: rewardsToPool folds the stored residue into the amount it distributes (GetRewardResidue → blockRewards), so on every path on which it credits rewards (AddRewards / AddTotalRewards) it also stores the new remainder with SetRewardsResidue — unconditionally, also when the remainder is zero; a residue that has been paid out but is still stored is paid out again by the next block (tokens created)")
+	c.Min(2)
+	{
+		rp := w.Fn("staking", "", "rewardsToPool")
+		c.sawFunc(fname(rp))
+		var sets, credits, reads []ssa.Instruction
+		for _, fn := range withSplitOffHelpers(w, rp) {
+			for _, ci := range callInstrs(fn) {
+				o := calleeObj(ci)
+				if o == nil {
+					continue
+				}
+				in := ci.(ssa.Instruction)
+				if fn != rp {
+					// judged at the call of the split-off part
+					for _, cj := range callInstrs(rp) {
+						if cj.Common().StaticCallee() == fn {
+							in = cj.(ssa.Instruction)
+						}
+					}
+				}
+				switch o.Name() {
+				case "SetRewardsResidue":
+					sets = append(sets, in)
+				case "AddRewards", "AddTotalRewards":
+					credits = append(credits, in)
+				case "GetRewardResidue", "GetRewardsResidue":
+					reads = append(reads, in)
+				}
+			}
+		}
+		if len(reads) == 0 || len(credits) == 0 {
+			c.Undecided(fname(rp)+"#residue-replaced-with-every-distribution", rp.Pos(), fmt.Sprintf("rewardsToPool no longer reads the residue (%d reads) or credits rewards (%d credits)", len(reads), len(credits)))
+		}
+		for i, cr := range credits {
+			c.sites++
+			ok := mustPassAfter(cr, sets) || mustPassBefore(cr, sets)
+			c.Check(fmt.Sprintf("%s#residue-replaced-with-every-distribution-%d", fname(rp), i), cr.Pos(), ok, ifelse(ok, "SetRewardsResidue on every path through this credit", "rewards that include the stored residue are credited on a path that does not store the new remainder: when the new remainder is zero the old residue stays in the statistics although it has just been paid out, and the next block pays it out again"))
+		}
+		// the remainder stored is the one of this distribution
+		for i, st := range sets {
+			c.sites++
+			arg := callArgs(st.(ssa.CallInstruction))
+			fromRem := len(arg) > 0 && derivesFrom(arg[len(arg)-1], func(v ssa.Value) bool {
+				// the remainder operand of a QuoRem / DivMod / Mod / Rem in this function
+				if v.Referrers() == nil {
+					return false
+				}
+				for _, r := range *v.Referrers() {
+					if cc, ok := r.(*ssa.Call); ok {
+						if o := calleeObj(cc); o != nil && (o.Name() == "QuoRem" || o.Name() == "DivMod") {
+							a := callArgs(cc)
+							if len(a) == 3 && a[2] == v {
+								return true
+							}
+						}
+						if o := calleeObj(cc); o != nil && (o.Name() == "Mod" || o.Name() == "Rem") && callRecv(cc) == v {
+							return true
+						}
+					}
+				}
+				return false
+			})
+			c.Check(fmt.Sprintf("%s#stored-residue-is-this-remainder-%d", fname(rp), i), st.Pos(), fromRem, ifelse(fromRem, "the value stored is the remainder of this block's division", "the residue stored is not the remainder of this block's division"))
+		}
+	}
+
+	// ------------------------------------------------------------ P11
+	c.Rule("C07.P11", "TYPESTATE", "a list of positions refers to the slice as it was when the positions were collected: in core/state a function that takes positions ([]int) and indexes a slice field with them does not change the layout of that slice inside the loop over the positions — no copy() onto it, no append onto a prefix of it, no re-slicing store — so every position still names the element it was collected for (RemoveRecords marks the elements and compacts afterwards). Shifting inside the loop removes the neighbour of the second and later positions: an unfinished withdraw record disappears and its tokens with it")
+	c.Min(1)
+	{
+		nLoops := 0
+		for _, fn := range w.FuncsIn(statePkg) {
+			if fn.Blocks == nil || strings.HasSuffix(w.fileOf(fn.Pos()), "_test.go") {
+				continue
+			}
+			var posParam *ssa.Parameter
+			for _, prm := range fn.Params {
+				if sl, ok := prm.Type().Underlying().(*types.Slice); ok {
+					if b, isB := sl.Elem().Underlying().(*types.Basic); isB && b.Kind() == types.Int {
+						posParam = prm
+					}
+				}
+			}
+			if posParam == nil {
+				continue
+			}
+			// element accesses S[pos] where pos is an element of the positions parameter
+			for _, b := range fn.Blocks {
+				for _, in := range b.Instrs {
+					ia, ok := in.(*ssa.IndexAddr)
+					if !ok {
+						continue
+					}
+					sf, _ := loadedField(stripConvNoBind(ia.X))
+					if sf == nil {
+						continue
+					}
+					fromPos := derivesFrom(ia.Index, func(v ssa.Value) bool {
+						if u, isU := v.(*ssa.UnOp); isU && u.Op == token.MUL {
+							if pa, isIA := u.X.(*ssa.IndexAddr); isIA && stripConvNoBind(pa.X) == ssa.Value(posParam) {
+								return true
+							}
+						}
+						return false
+					})
+					if !fromPos {
+						continue
+					}
+					// innermost loop around the access
+					var header *ssa.BasicBlock
+					for _, hb := range fn.Blocks {
+						if isLoopHeader(hb) && naturalLoop(hb)[b] {
+							if header == nil || naturalLoop(header)[hb] {
+								header = hb
+							}
+						}
+					}
+					if header == nil {
+						continue
+					}
+					nLoops++
+					c.sites++
+					c.sawFunc(fname(fn))
+					bad := ""
+					for lb := range naturalLoop(header) {
+						for _, li := range lb.Instrs {
+							switch x := li.(type) {
+							case *ssa.Call:
+								bi, isB := x.Call.Value.(*ssa.Builtin)
+								if !isB {
+									continue
+								}
+								if bi.Name() == "copy" || bi.Name() == "append" {
+									if derivesFrom(x.Call.Args[0], func(v ssa.Value) bool { f, _ := loadedField(v); return f == sf }) {
+										if bi.Name() == "append" {
+											if _, isSl := stripConvNoBind(x.Call.Args[0]).(*ssa.Slice); !isSl {
+												continue
+											}
+										}
+										bad = bi.Name() + " at " + w.Pos(x.Pos())
+									}
+								}
+							case *ssa.Store:
+								if fa, isFA := x.Addr.(*ssa.FieldAddr); isFA && fieldOfAddr(fa) == sf {
+									bad = "re-slicing store at " + w.Pos(x.Pos())
+								}
+							}
+						}
+					}
+					c.Check(fmt.Sprintf("%s#positions-stay-valid-in-%s", fname(fn), sf.Name()), ia.Pos(), bad == "", ifelse(bad == "", "the slice keeps its layout while the positions are used", "the slice is shifted inside the loop over the positions ("+bad+"): from the second position on the element behind the intended one is taken — a live record is dropped"))
+				}
+			}
+		}
+		if nLoops == 0 {
+			c.Undecided("core/state#position-lists", token.NoPos, "no loop indexing a slice field with a list of positions found (WithdrawQueue.RemoveRecords is expected)")
+		}
+	}
+
 	// ------------------------------------------------------------ P9
 	c.Rule("C07.P9", "ORDER", "in settleValidatorRewards the residue is carried over into the new record (RewardsDistributable.Set(record.residue)) only after everything that pays it out or zeroes it: no payment of record.residue and no in-place change of it can follow the carry-over")
 	c.Min(1)
